@@ -122,6 +122,12 @@ fn oracle_inner(ctx: &mut Ctx, m: &Movie) -> Check {
         ctx.sample("trivial", m);
     }
     // (a) one stream
+    if built.gap.is_some() {
+        // physically larger than 4 GiB: served from a stream with a phantom gap; single-stream path only
+        let mut r = crate::oracle::open_built(&built)?;
+        ctx.count("movie:file-larger-than-4GiB");
+        return check_samples(&mut r, m, &built.truth, &OPTS);
+    }
     let mut r = open(&built.bytes)?;
     check_samples(&mut r, m, &built.truth, &OPTS)?;
     // (b) init segment + separately opened media segment
